@@ -202,6 +202,12 @@ class S:
     def __ne__(self, o): return bnot(cmp('eq', self, o))
 
 
+def _isnan(x):
+    """a concrete float NaN (a NaN row written into an otherwise symbolic array): IEEE semantics below —
+    arithmetic and functions propagate it, every ordered comparison and == with it is False"""
+    return isinstance(x, (float, _np.floating)) and x != x
+
+
 def lift(x):
     if isinstance(x, S):
         return x
@@ -217,6 +223,8 @@ def lift(x):
 
 
 def _bin(op, a, b):
+    if _isnan(a) or _isnan(b):
+        return float('nan')
     la, lb = lift(a), lift(b)
     if la is None or lb is None:
         if isinstance(a, (list, tuple)) or isinstance(b, (list, tuple)):
@@ -270,6 +278,8 @@ def neg(a):
 
 
 def power(a, b):
+    if _isnan(a) or _isnan(b):
+        return float('nan')
     a0, b0 = a, b
     a, b = lift(a), lift(b)
     if a is None or b is None:
@@ -326,6 +336,8 @@ def _sqrt_q(q):
 
 
 def fn(name, *args):
+    if any(_isnan(a) for a in args):
+        return float('nan')
     args = tuple(lift(a) for a in args)
     if any(a is None for a in args):
         raise Unsupported(f"{name} of a non-number")
@@ -388,6 +400,8 @@ class B:
 
 
 def cmp(op, a, b):
+    if _isnan(a) or _isnan(b):
+        return False
     a, b = lift(a), lift(b)
     if a is None or b is None:
         return NotImplemented
